@@ -406,6 +406,11 @@ def run_check(prop, tier, verif_seed):
     if total['done'] == 0:
         lines.append('HARNESS-ERROR: no run completed')
         exit_code = exit_code or 2
+    elif total['nontrivial'] < max(2, 0.2 * total['done']) and not total['violations']:
+        # e.g. a setup stage fails for (nearly) every scenario: no coverage is not a pass
+        lines.append('HARNESS-ERROR: only %d of %d runs reached an oracle comparison; discarded: %s' % (
+            total['nontrivial'], total['done'], json.dumps(total['discarded'], sort_keys=True)))
+        exit_code = exit_code or 2
 
     wall = time.time() - t0
     zero_probes = [p for p in getattr(prop, 'PROBES', []) if not total['probes'].get(p)]
